@@ -13,12 +13,19 @@ TARGETS: (lean name, rust fn name, file[, options]).  Options: `impl` (the metho
   `types_from` (further files whose struct / enum definitions may be read), `const_from` (further files for constants),
   `hints` ({local: type} for a `let` whose type Rust infers from a LATER use; a wrong hint is a type error of the translation),
   `calls` ({"alias::f": lean name} for a call through a module alias) with `uses` (regexes the file's imports must still match),
-  `opaque` (type aliases carried around but never computed with, a `Nat`).
+  `opaque` (type aliases carried around but never computed with, a `Nat`), `aliases` ({alias: type text}),
+  `extern` ({canonical text of a macro call in expression position: (parameter, type)} — the value enters as a parameter),
+  `opaque_lets` ({x: text}: `let x = text;` is skipped, `x` is unusable elsewhere), `extern_lets` ({x: (text, parameter, type)}: `let x = text;`
+  binds the parameter).  The texts are compared with the source on every run; a difference is an ERROR.
 
 Subset and the SEMANTICS each construct is given:
   values      every integer is a `Nat` below 2^width of its Rust type (usize = u64); `bool` is `Bool`; `Option<T>` is `Option`; tuples are
               products; `Vec<T>` / `&[T]` are `List`; a single-field tuple struct over an integer (`PageNumber(u32)`, `Self(x)`) is that
               integer; an enum with integer payloads becomes a generated `inductive` with the same variant names.
+              `isize` / `i64` / `i32` are `Int` (only literals, negated literals, casts of constants and comparisons).  A struct VALUE
+              (`Self { … }`, `Name { … }`) is the tuple of the struct's fields in declaration order (arrays flattened; all fields required).
+              A `self` that is an enum with non-integer payloads enters as its variant TAG (generated `inductive <Enum>_kind`); `match self`
+              with `Enum::Variant(_, …)` patterns and guards becomes a chain of tests of the tag.
   result      `Option R`: `none` = the Rust function PANICS (debug build: overflow of + - *, division / remainder by zero, shift by >= width,
               failed `assert!` / `assert_eq!` / `assert_ne!`, `panic!` / `unreachable!`, index out of bounds, `unwrap` of `None`).
               A function with a `loop` / `while` takes `fuel` first and returns `Option (Option R)`: outer `none` = the fuel ran out,
@@ -33,7 +40,9 @@ Subset and the SEMANTICS each construct is given:
               `Option` (`None` / `Some(pattern)`, tuple patterns), `return [e];`, the assert / panic macros, calls of unit methods,
               `loop { }` / `while c { }` (auxiliary definition, recursion on explicit fuel, all variables in scope are its parameters,
               `continue` = recursive call, `break` = the statements after the loop), `for i in a..b` / `(a..b).rev()` (auxiliary definition,
-              structural recursion on the number of remaining iterations — no fuel), trailing expression.  Nested loops are NOT translated.
+              structural recursion on the number of remaining iterations — no fuel), trailing expression.  A loop INSIDE a loop is translated
+              only if it is a `for` over a literal range of at most 64 iterations: it is UNROLLED (it may leave through a labelled `break` /
+              `continue` of the enclosing loop or a `return`, not through its own).  Parameters the body never mentions are dropped.
   expressions integer literals (dec / hex / bin / octal, `_`, type suffix), `true` / `false`, locals, parameters,
               UPPER_CASE constants (resolved by tools/gen_constants.py's evaluator from their `const` items),
               `u64::MAX`-style constants, + - * / % << >> & | ^ ! (bitwise / logical), comparisons, && || (short-circuit),
@@ -125,9 +134,20 @@ TARGETS = [
     ("page_number_is_nil", "is_nil", "nomt/src/beatree/allocator/mod.rs", {"impl": "PageNumber"}),
     ("get_nth_pop", "get_nth_pop", "nomt/src/beatree/allocator/free_list.rs", {"impl": "CleanFreeList", "types_from": ["nomt/src/beatree/allocator/mod.rs"]}),
     ("probe_next", "next", "nomt/src/bitbox/mod.rs", {"impl": "ProbeSequence", "types_from": ["nomt/src/bitbox/meta_map.rs"]}),
+    # `errno` enters as a Bool (`extern`): is the last OS error `Interrupted`?  the command's kind as its variant tag
+    ("io_get_result", "get_result", "nomt/src/io/mod.rs",
+     {"impl": "IoKind", "opaque_lets": {"os_err": "std::io::Error::last_os_error()"},
+      "extern": {"matches!(os_err.kind(),std::io::ErrorKind::Interrupted)": ("interrupted", "bool")}}),
+    # struct results: the tuple of the fields in declaration order; the page-id hash enters as a parameter (`extern_lets`)
+    ("probe_new", "new", "nomt/src/bitbox/mod.rs",
+     {"impl": "ProbeSequence", "types_from": ["nomt/src/bitbox/meta_map.rs"], "extern_lets": {"hash": ("hash_page_id(page_id,seed)", "hash", "u64")}}),
+    ("pd_join", "join", "nomt/src/page_diff.rs", {"impl": "PageDiff"}),
+    # a nested loop: the outer `for byte in 0..32` is an auxiliary recursion, the inner `for bit in 0..8` (literal range) is unrolled
+    ("prefix_len", "prefix_len", "nomt/src/beatree/ops/bit_ops.rs", {"aliases": {"Key": "Vec<u8>"}, "hints": {"mask": "u8"}}),
 ]
 
 WIDTH = {"usize": 64, "u64": 64, "u32": 32, "u16": 16, "u8": 8, "bool": 0}
+SIGNED = {"isize": 64, "i64": 64, "i32": 32}      # signed integers are `Int`; only literals, negated literals, casts of constants and comparisons
 LEAN_KEYWORDS = {"at", "from", "end", "meta", "open", "prefix", "infix", "fun", "let", "in", "do", "then", "else", "if", "match", "with",
                  "where", "have", "show", "by", "local", "private", "section", "namespace", "export", "import", "def", "theorem", "example",
                  "instance", "structure", "class", "inductive", "variable", "universe", "mutual", "partial", "unsafe", "macro", "syntax",
@@ -177,6 +197,11 @@ def lex(src, what):
 
 # ------------------------------------------------------------------ parser (AST = tuples)
 
+def toks_text(toks):
+    """canonical text of a token range (no spaces): what `extern` / `extern_lets` entries are compared with"""
+    return "".join(str(v) + (s or "") if k == "int" else str(v) for k, v, s in toks)
+
+
 ASSIGN_OPS = ("=", "+=", "-=", "*=", "/=", "%=", "&=", "|=", "^=", "<<=", ">>=")
 
 
@@ -185,6 +210,7 @@ class Parser:
 
     def __init__(self, toks, what, self_ty=None):
         self.t, self.i, self.what, self.self_ty = toks, 0, what, self_ty
+        self.let_text = {}
 
     def peek(self, k=0):
         return self.t[min(self.i + k, len(self.t) - 1)]
@@ -246,7 +272,7 @@ class Parser:
         while self.at("op", "::"):       # path to a type: keep the last component
             self.next()
             name = self.expect("id")
-        if name in WIDTH:
+        if name in WIDTH or name in SIGNED:
             return name
         if name in ("Option", "Vec"):
             self.expect("op", "<")
@@ -363,7 +389,9 @@ class Parser:
                     self.next()
                     ty = self.ty()
                 self.expect("op", "=")
+                i0 = self.i
                 e = self.expr()
+                self.let_text[x] = toks_text(self.t[i0:self.i])
                 self.expect("op", ";")
                 stmts.append(("let", x, ty, e))
             elif self.at("id", "return"):
@@ -508,8 +536,23 @@ class Parser:
             return ("psome", p)
         if k == "id" and v in ("ref", "mut"):
             return self.pattern()
-        if k == "id" and v[0].islower():
+        if k == "id" and v[0].islower() and not self.at("op", "::"):
             return ("pbind", v)
+        if k == "id":
+            path = [v]
+            while self.at("op", "::"):
+                self.next()
+                path.append(self.expect("id"))
+            subs = []
+            if self.at("op", "("):
+                self.next()
+                while not self.at("op", ")"):
+                    subs.append(self.pattern())
+                    if self.at("op", ","):
+                        self.next()
+                self.expect("op", ")")
+            if len(path) >= 2 and path[-1][0].isupper():
+                return ("pvariant", path, subs)
         raise TrError(f"{self.what}: pattern `{v}` is outside the translated subset")
 
     def match_(self):
@@ -572,6 +615,9 @@ class Parser:
             self.next()
             return ("not", self.unary())
         if self.at("op", "-"):
+            if self.peek(1)[0] == "int":
+                self.next()
+                return ("neg", self.next()[1])
             raise TrError(f"{self.what}: unary minus is outside the translated subset")
         if self.at("op", "&") or self.at("op", "*"):      # references and dereferences are the value itself
             self.next()
@@ -650,6 +696,16 @@ class Parser:
             if len(es) == 1 and not trailing:
                 return ("paren", es[0])
             return ("tuple", es)
+        if k == "op" and v == "[":
+            es = []
+            while not self.at("op", "]"):
+                es.append(self.expr())
+                if self.at("op", ","):
+                    self.next()
+                elif self.at("op", ";"):
+                    raise TrError(f"{self.what}: `[x; n]` is outside the translated subset")
+            self.expect("op", "]")
+            return ("arraylit", es)
         if k == "id" and v == "if":
             self.i -= 1
             return self.if_()
@@ -671,7 +727,14 @@ class Parser:
                 self.next()
                 path.append(self.expect("id"))
             if self.at("op", "!"):
-                raise TrError(f"{self.what}: macro `{v}!` in expression position is outside the translated subset")
+                # a macro call in expression position: kept as TEXT, translated only if the target declares it in `extern`
+                start = self.i - len(path) * 2 + 1
+                self.next()
+                self.expect("op", "(")
+                self.skip_macro_args()
+                if self.t[self.i - 1] == ("op", ";", None):
+                    self.i -= 1
+                return ("externtext", toks_text(self.t[start:self.i]))
             if self.at("op", "("):
                 return ("call", path, self.args())
             if len(path) == 2 and path[0] in WIDTH and path[1] in ("MAX", "MIN", "BITS"):
@@ -685,7 +748,21 @@ class Parser:
                     return ("variant", path, [])
                 raise TrError(f"{self.what}: path `{'::'.join(path)}` is outside the translated subset")
             if self.at("op", "{") and name[0].isupper():
-                raise TrError(f"{self.what}: struct literal `{name} {{ … }}` is outside the translated subset")
+                self.next()
+                fields = []
+                while not self.at("op", "}"):
+                    if self.at("op", ".."):
+                        raise TrError(f"{self.what}: `..` in a struct literal is outside the translated subset")
+                    f = self.expect("id")
+                    if self.at("op", ":"):
+                        self.next()
+                        fields.append((f, self.expr()))
+                    else:
+                        fields.append((f, ("var", f)))
+                    if self.at("op", ","):
+                        self.next()
+                self.expect("op", "}")
+                return ("structlit", name, fields)
             return ("var", name)
         raise TrError(f"{self.what}: unexpected token `{v}` — outside the translated subset")
 
@@ -695,9 +772,10 @@ class Parser:
 class TypeCtx:
     """struct and enum definitions of the files a target may look into (its own file first, then `types_from`)"""
 
-    def __init__(self, rels, what, opaque=()):
+    def __init__(self, rels, what, opaque=(), aliases=None):
         self.what = what
         self.opaque = tuple(opaque)
+        self.aliases = dict(aliases or {})
         self.structs, self.enums = {}, {}
         for rel in rels:
             text = GC.read(rel)
@@ -754,6 +832,17 @@ class TypeCtx:
                 return self.parse_ty(src, sname)
         raise TrError(f"{self.what}: struct `{sname}` has no field `{f}`")
 
+    def struct_leaf_tys(self, sname):
+        """Lean types of the components a struct VALUE is made of: its fields in declaration order, arrays flattened"""
+        out = []
+        for f, src in self.fields(sname):
+            t = self.value_ty(self.parse_ty(src, sname))
+            if isinstance(t, tuple) and t[0] == "arr":
+                out += [lean_ty(t[1])] * t[2]
+            else:
+                out.append(lean_ty(t))
+        return out
+
     def is_newtype(self, sname):
         if sname not in self.structs:
             return False
@@ -771,6 +860,8 @@ class TypeCtx:
             n = t[1]
             if n in self.opaque:
                 return ("opaque", n)
+            if n in self.aliases:
+                return self.value_ty(self.parse_ty(self.aliases[n]))
             if n in self.enums:
                 if self.enums[n][1] is None:
                     raise TrError(f"{self.what}: enum `{n}` has struct-like variants — outside the translated subset")
@@ -831,6 +922,10 @@ def split_top(s):
 def lean_ty(t):
     if t == "bool":
         return "Bool"
+    if isinstance(t, str) and t in SIGNED:
+        return "Int"
+    if isinstance(t, tuple) and t[0] == "struct":
+        return "(" + " × ".join(CUR_TYPES.struct_leaf_tys(t[1])) + ")"
     if t == "unit":
         return "Unit"
     if isinstance(t, str):
@@ -846,6 +941,9 @@ def lean_ty(t):
     if t[0] == "opaque":
         return "Nat"
     raise TrError(f"type {t} has no Lean counterpart in the translated subset")
+
+
+CUR_TYPES = None
 
 
 def is_int(t):
@@ -888,6 +986,8 @@ class Tr:
         self.nloops = 0
         self.lean = None
         self.enums_used = []
+        self.self_enum = None   # (enum name, lean parameter) when `self` is an enum, seen through its variant tag only
+        self.let_text = {}
 
     def fresh(self):
         self.tmp += 1
@@ -1033,6 +1133,13 @@ class Tr:
             v, ty = self.const(e[1])
             return (str(v), ty, [])
         if k == "as":
+            if e[2] in SIGNED:
+                if e[1][0] not in ("const", "lit"):
+                    raise TrError(f"{self.what}: cast of a non-constant to `{e[2]}` is outside the translated subset")
+                t, ty, p = self.expr(e[1], env, None)
+                if int(t) >= 2 ** (SIGNED[e[2]] - 1):
+                    raise TrError(f"{self.what}: constant {t} does not fit `{e[2]}`")
+                return (f"({t} : Int)", e[2], p)
             t, ty, p = self.expr(e[1], env, None)
             if not is_int(e[2]):
                 raise TrError(f"{self.what}: cast to `{e[2]}` is outside the translated subset")
@@ -1088,7 +1195,51 @@ class Tr:
             return ("(" + ", ".join(ts) + ")", ("tup", tys), pre)
         if k == "variant":
             return self.variant(e[1], [], env)
+        if k == "neg":
+            if want not in SIGNED:
+                raise TrError(f"{self.what}: a negative literal where no signed type is expected")
+            return (f"(-{e[1]})", want, [])
+        if k == "externtext":
+            ext = self.spec.get("extern", {})
+            if e[1] not in ext:
+                raise TrError(f"{self.what}: `{e[1]}` is outside the translated subset (not declared `extern` by the target)")
+            return (ext[e[1]][0], ext[e[1]][1], [])
+        if k == "tagtest":
+            return (f"(decide ({self.self_enum[1]} = {self.self_enum[0]}_kind.{e[1]}))", "bool", [])
+        if k == "structlit":
+            return self.structlit(e, env)
         raise TrError(f"{self.what}: unsupported expression node {k}")
+
+    def structlit(self, e, env):
+        """a struct value = the tuple of its fields in DECLARATION order (array fields flattened)"""
+        _, name, given = e
+        sname = self.spec.get("impl") if name == "Self" else name
+        if self.types is None or sname not in self.types.structs:
+            raise TrError(f"{self.what}: struct literal of `{name}`, whose definition is not in the files read")
+        decl = self.types.fields(sname)
+        if sorted(f for f, _ in given) != sorted(f for f, _ in decl):
+            raise TrError(f"{self.what}: struct literal of `{sname}` does not give exactly its fields")
+        gv = dict(given)
+        pre, comps = [], []
+        for f, src in decl:
+            ft = self.types.value_ty(self.types.parse_ty(src, sname))
+            x = gv[f]
+            if isinstance(ft, tuple) and ft[0] == "arr":
+                if x[0] != "arraylit" or len(x[1]) != ft[2]:
+                    raise TrError(f"{self.what}: field `{f}` of `{sname}` needs an array literal of {ft[2]} elements")
+                for y in x[1]:
+                    t, ty, p = self.expr(y, env, ft[1])
+                    if ty is not None and ty != ft[1]:
+                        raise TrError(f"{self.what}: element of `{f}` has type {ty}, expected {ft[1]}")
+                    pre += p
+                    comps.append(t)
+            else:
+                t, ty, p = self.expr(x, env, ft)
+                if ty is not None and ty != ft:
+                    raise TrError(f"{self.what}: field `{f}` of `{sname}` has type {ty}, expected {ft}")
+                pre += p
+                comps.append(t)
+        return ("(" + ", ".join(comps) + ")" if len(comps) > 1 else comps[0], ("struct", sname), pre)
 
     def variant(self, path, args, env):
         en = path[-2]
@@ -1187,13 +1338,24 @@ class Tr:
                 return (v, "bool", pa + [("bind", v, t)])
             return (f"({ta} {op} {tb})", "bool", pa)
         if op in ("==", "!=", "<", "<=", ">", ">="):
-            ta, tya, pa = self.expr(a, env, None)
+            if a[0] == "neg":               # `-1 == x`: the literal takes the type of the other side
+                _, tyb0, _ = self.expr(b, env, None)
+                ta, tya, pa = self.expr(a, env, tyb0)
+            else:
+                ta, tya, pa = self.expr(a, env, None)
             tb, tyb, pb = self.expr(b, env, tya)
             if tya is None and tyb is not None:
                 ta, tya, pa = self.expr(a, env, tyb)
             lop = {"==": "==", "!=": "!=", "<": "<", "<=": "≤", ">": ">", ">=": "≥"}[op]
             if tya == "bool":
                 return (f"({ta} {lop} {tb})", "bool", pa + pb)
+            if tya in SIGNED or tyb in SIGNED:
+                sg = tya if tya in SIGNED else tyb
+                ta, tya, pa = self.expr(a, env, sg)
+                tb, tyb, pb = self.expr(b, env, sg)
+                if (tya is not None and tya != sg) or (tyb is not None and tyb != sg):
+                    raise TrError(f"{self.what}: comparison of a signed with another integer type ({tya} vs {tyb})")
+                return (f"(decide ({ta} {lop if lop not in ('==', '!=') else {'==': '=', '!=': '≠'}[lop]} {tb}))", "bool", pa + pb)
             if (tya is not None and not is_int(tya)) or (tyb is not None and not is_int(tyb)):
                 raise TrError(f"{self.what}: comparison of non-integer values ({tya}) is outside the translated subset")
             if tya is not None and tyb is not None and tya != tyb:
@@ -1201,7 +1363,9 @@ class Tr:
             return (f"(decide ({ta} {lop if lop not in ('==', '!=') else {'==': '=', '!=': '≠'}[lop]} {tb}))", "bool", pa + pb)
         if op in ("<<", ">>"):
             ta, tya, pa = self.expr(a, env, want)
-            tb, tyb, pb = self.expr(b, env, "u32")
+            tb, tyb, pb = self.expr(b, env, None)          # the amount may have any integer type
+            if tyb is None:
+                tb, tyb, pb = self.expr(b, env, "u32")
             if tya is None:
                 raise TrError(f"{self.what}: shift of an untyped literal")
             w = WIDTH[tya]
@@ -1443,6 +1607,26 @@ class Tr:
             if none_body is None or some_body is None:
                 raise TrError(f"{self.what}: `match` on an Option without both cases")
             return [("matchopt", scrut, none_body, some_pat, some_body)]
+        if scrut == ("var", "self") and self.self_enum is not None:
+            def chain_v(rest):
+                if not rest:
+                    return [("panic",)]
+                (pat, guard, body), more = rest[0], rest[1:]
+                if pat[0] == "pvariant":
+                    en = self.spec.get("impl") if pat[1][-2] == "Self" else pat[1][-2]
+                    names = [v for v, _ in self.types.enums[self.self_enum[0]][1]]
+                    if en != self.self_enum[0] or pat[1][-1] not in names or any(sp[0] != "pwild" for sp in pat[2]):
+                        raise TrError(f"{self.what}: pattern `{'::'.join(pat[1])}` is outside the translated subset")
+                    c = ("tagtest", pat[1][-1])
+                    if guard is not None:
+                        c = ("bin", "&&", c, guard)
+                    return [("ifstmt", ("if", c, body, chain_v(more)))]
+                if pat[0] == "pwild":
+                    if guard is None:
+                        return list(body)
+                    return [("ifstmt", ("if", guard, body, chain_v(more)))]
+                raise TrError(f"{self.what}: pattern {pat[0]} in a `match self` is outside the translated subset")
+            return chain_v(arms)
         tmp = "match_scrutinee"
         out = [("let", tmp, None, scrut)]
 
@@ -1507,6 +1691,18 @@ class Tr:
                 tys.append(ty)
             return self.wrap(p, self.OK(self.ret_term(env, t, ty)))
         if k == "let" or k == "assign":
+            if k == "let" and (s[1] in self.spec.get("extern_lets", {}) or s[1] in self.spec.get("opaque_lets", {})):
+                x = s[1]
+                if x in self.spec.get("opaque_lets", {}):
+                    if self.let_text.get(x) != self.spec["opaque_lets"][x]:
+                        raise TrError(f"{self.what}: `let {x} = {self.let_text.get(x)}` is no longer the declared `{self.spec['opaque_lets'][x]}`")
+                    return self.stmts(rest, env, ret, tys)       # never bound: any use of `x` outside a declared `extern` is an error
+                text, pname, pty = self.spec["extern_lets"][x]
+                if self.let_text.get(x) != text:
+                    raise TrError(f"{self.what}: `let {x} = {self.let_text.get(x)}` is no longer the declared `{text}`")
+                env2 = dict(env)
+                env2[x] = (pname, pty)
+                return self.stmts(rest, env2, ret, tys)
             if k == "let":
                 _, x, ty, e = s
                 if ty is None and x in self.spec.get("hints", {}):
@@ -1771,7 +1967,28 @@ class Tr:
         if self.valblock:
             raise TrError(f"{self.what}: loop inside a block in expression position is outside the translated subset")
         if self.loops:
-            raise TrError(f"{self.what}: nested loops are outside the translated subset")
+            # a loop INSIDE a loop: only `for` over a literal range of at most 64 iterations, which is UNROLLED (the index a literal in
+            # each copy); it may leave through a labelled `break` / `continue` of the enclosing loop or a `return`, not through its own
+            if not (lo[0] == "lit" and hi[0] == "lit" and 0 <= hi[1] - lo[1] <= 64):
+                raise TrError(f"{self.what}: nested loops are outside the translated subset (only a `for` over a literal range of ≤ 64 iterations is unrolled)")
+            bad = []
+
+            def look(n):
+                if n and n[0] in ("loop", "for"):
+                    bad.append("a loop inside the unrolled loop")
+                if n and n[0] in ("break", "continue") and (n[1] is None or n[1] == label):
+                    bad.append(f"`{n[0]}` of the unrolled loop itself")
+                return True
+            walk(body, look)
+            if bad:
+                raise TrError(f"{self.what}: {bad[0]} is outside the translated subset")
+            ks = list(range(lo[1], hi[1]))
+            if rev:
+                ks.reverse()
+            unrolled = []
+            for kx in ks:
+                unrolled += [("let", x, None, ("lit", kx, lo[2] or hi[2] or "usize"))] + list(body)
+            return self.stmts(unrolled + list(rest), env, ret, tys)
         tlo, tylo, plo = self.expr(lo, env, "usize")
         thi, tyhi, phi = self.expr(hi, env, tylo or "usize")
         ity = tylo or tyhi or "usize"
@@ -1936,18 +2153,39 @@ def translate(target, fns, emitted_enums):
     for pat in spec.get("uses", []):
         if not re.search(pat, GC.read(rel)):
             raise TrError(f"{what}: the import `{pat}` this translation relies on is gone from {rel}")
-    types = TypeCtx([rel] + spec.get("types_from", []), what, spec.get("opaque", ()))
-    name, params, ret, body, selfmode = Parser(lex(src, what), what, impl).function()
+    types = TypeCtx([rel] + spec.get("types_from", []), what, spec.get("opaque", ()), spec.get("aliases"))
+    global CUR_TYPES
+    CUR_TYPES = types
+    parser = Parser(lex(src, what), what, impl)
+    name, params, ret, body, selfmode = parser.function()
     if selfmode and not impl:
         raise TrError(f"{what}: a method needs `impl` in its target")
     tr = Tr(what, fns, lambda c, rel=rel: const_value(c, rel, spec.get("const_from", ())), types, spec)
     tr.lean = lean
     if "hints" in spec:
         spec["hints"] = {k: v for k, v in spec["hints"].items()}
-    if selfmode:
+    tr.let_text = parser.let_text
+    enum_sig = []
+    if selfmode and impl in types.enums:
+        tr.self_enum = (impl, "self_kind")
+        enum_sig = [f"(self_kind : {impl}_kind)"]
+    elif selfmode:
         tr.objs["self"] = impl
+    # variables the body mentions (outside the declared extern / opaque lets): a parameter that is never mentioned is dropped
+    mentioned = set()
+    skip = set(spec.get("extern_lets", {})) | set(spec.get("opaque_lets", {}))
+
+    def look0(n):
+        if n and n[0] == "let" and n[1] in skip:
+            return False
+        if n and n[0] == "var":
+            mentioned.add(n[1])
+        return True
+    walk(body, look0)
     prim_params = []
     for p, t in params:
+        if p not in mentioned:
+            continue
         if not isinstance(t, str) and t[0] == "named" and t[1] in types.structs:
             tr.objs[p] = t[1]
         else:
@@ -1988,6 +2226,11 @@ def translate(target, fns, emitted_enums):
         taken.add(nm)
         sig.append(f"({nm} : {lean_ty(t)})")
         env[p] = (nm, t)
+    for text, (pname, pty) in sorted(spec.get("extern", {}).items()):
+        sig.append(f"({pname} : {lean_ty(pty)})")
+    for x, (text, pname, pty) in sorted(spec.get("extern_lets", {}).items()):
+        sig.append(f"({pname} : {lean_ty(pty)})")
+    sig = enum_sig + sig
     # leaf fields the body assigns
     assigned = []
 
@@ -2011,6 +2254,10 @@ def translate(target, fns, emitted_enums):
     flat = " ".join(src.split())
     rty = tr.ret_lean_ty()
     out = ""
+    if tr.self_enum and impl + "_kind" not in emitted_enums:
+        emitted_enums.append(impl + "_kind")
+        out += (f"/-- which variant of `enum {impl}` (`{types.enums[impl][0]}`) a value is: the payloads are not translated -/\ninductive {impl}_kind where\n"
+                + "".join(f"  | {vn}\n" for vn, _ in types.enums[impl][1]) + "deriving DecidableEq, Repr\n\n")
     for en in tr.enums_used:
         if en not in emitted_enums:
             emitted_enums.append(en)
